@@ -21,6 +21,11 @@
      add [--verbose] <.xvc> '*.gitignore' '*.xvcignore'   [git_add]   honours the root .gitignore
                                        written by xvc init (Gen/GitignoreInitial.v); fails when a pathspec matches nothing
      commit -m <msg>                  [git_commit]          fails when there is nothing to commit
+     commit -m <msg> -- <.xvc> '*.gitignore' '*.xvcignore'   [git_commit_only]   (`git commit --only`) a temporary
+                                       index = HEAD with the work-tree state of every path of HEAD or the index
+                                       that matches a pathspec; commits it; the same paths are updated in the real
+                                       index, every other index entry stays; fails when a pathspec matches nothing
+                                       in HEAD and index, and when the new tree is the tree of HEAD
      stash pop --index                [stash_pop_index]     index patch, then 3-way merge into index +
                                        work tree, refuses to overwrite local changes (all or nothing);
                                        with an index to restore and anything staged it resets the index
@@ -303,6 +308,25 @@ Definition git_commit (g : git) : bool * git :=
     | Detached _ => (true, set_head g1 (Detached (c_id c)))
     end.
 
+(* git commit -m <msg> -- <xvc dir> '*<suffix>'... : with pathspecs `git commit` is `git commit --only`.
+   The pathspecs select among the paths of the index and of HEAD (not among untracked files); a temporary
+   index is read from HEAD, every selected path gets its work-tree state there (added, or removed when the
+   file is gone) and the same is done in the real index; the temporary index is committed; on failure
+   ("did not match any file(s) known to git", "nothing to commit") nothing is changed. *)
+Definition commit_paths (g : git) : list path :=
+  filter managed (tkeys (head_tree g) ++ tkeys (g_index g)).
+Definition commit_pathspecs_match (g : git) : bool :=
+  let ks := tkeys (head_tree g) ++ tkeys (g_index g) in
+  existsb under_xvc ks && forallb (fun s => existsb (suffix_spec s) ks) add_suffixes.
+Definition git_commit_only (g : git) : bool * git :=
+  if commit_pathspecs_match g then
+    let ps := commit_paths g in
+    match git_commit (set_index g (upd (head_tree g) ps (tget (g_wt g)))) with
+    | (true, g1) => (true, set_index g1 (upd (g_index g) ps (tget (g_wt g))))
+    | (false, _) => (false, g)                      (* "nothing to commit" / "no changes added to commit" *)
+    end
+  else (false, g).                                  (* "pathspec ... did not match any file(s) known to git" *)
+
 (* git stash pop --index *)
 Inductive pmerge := PKeep | PTake (v : option blob) | PRefuse | PConflict.
 Definition wt_uptodate (x w : option blob) : bool :=
@@ -404,7 +428,8 @@ Definition checkout_ref (r : refarg) (g : git) : bool * git :=
 (* ---- xvc's automation: core/src/util/git.rs ------------------------------------------------ *)
 Inductive gitcmd :=
 | GDiffCached | GStashPushStaged | GCheckoutB (b : name) | GCheckout (r : refarg)
-| GAddVerbose | GAdd | GCommit | GStashPopIndex.
+| GAddVerbose | GAdd | GCommit | GStashPopIndex
+| GCommitOnly.                       (* commit -m <msg> -- <xvc dir> '*.gitignore' '*.xvcignore' *)
 Definition trace := list gitcmd.
 
 (* stash_user_staged_files: Some stashed? = Ok(git_diff_staged_out non-empty?), None = Err *)
@@ -462,6 +487,27 @@ Definition git_auto_commit (fx : bool) (tb : option name) (g : git) : bool * git
       else (ok, g2, t1 ++ t2)
   end.
 
+(* git_auto_commit after the repair of P24 (repo-patches/83): no stash at all.  checkout -b, add --verbose,
+   early `return Ok(())` when nothing was added, then a commit limited to the pathspecs of the add: what the
+   user staged stays in the index and out of the commit; work tree and stash are not touched. *)
+Definition git_auto_commit_only (tb : option name) (g : git) : bool * git * trace :=
+  let '(okb, g1, t1) :=
+    match tb with
+    | Some b => let '(ok, g') := checkout_b b g in (ok, g', [GCheckoutB b])
+    | None => (true, g, [])
+    end in
+  if negb okb then (false, g1, t1)                          (* `?` *)
+  else
+    match git_add g1 with
+    | (false, _, g2) => (false, g2, t1 ++ [GAddVerbose])                   (* return Err(e) *)
+    | (true, out, g2) =>
+        if is_nil out then (true, g2, t1 ++ [GAddVerbose])                (* return Ok(()) -- early *)
+        else
+          match git_commit_only g2 with
+          | (ok, g3) => (ok, g3, t1 ++ [GAddVerbose; GCommitOnly])
+          end
+    end.
+
 (* git_auto_stage *)
 Definition git_auto_stage (g : git) : bool * git * trace :=
   match git_add g with
@@ -480,6 +526,12 @@ Definition git_checkout_ref (fx : bool) (r : refarg) (g : git) : bool * git * tr
       else (ok, g2, t1 ++ [GCheckout r])
   end.
 
+(* git_checkout_ref after the repair of P24: `git checkout <ref>` with the user's index and work tree in place
+   (Git carries local changes over when they do not touch a path that differs between the two commits and
+   refuses, changing nothing, when they do) *)
+Definition git_checkout_ref_plain (r : refarg) (g : git) : bool * git * trace :=
+  let '(ok, g1) := checkout_ref r g in (ok, g1, [GCheckout r]).
+
 Record settings := {
   use_git : bool;            (* git.use_git *)
   auto_commit : bool;        (* git.auto_commit *)
@@ -487,13 +539,18 @@ Record settings := {
   skip_git : bool;           (* --skip-git *)
   to_branch : option name;   (* --to-branch *)
   from_ref : option refarg;  (* --from-ref *)
-  fixed_P20 : bool           (* true: the tree as it is (stash popped on every exit path); false: before the fix of P20 *)
+  fixed_P20 : bool;          (* true: the stash is popped on every exit path (/repo af0f35b8); false: before the fix of P20 *)
+  fixed_P24 : bool           (* true: the repair of P24 (no stash: commit limited by pathspecs, plain checkout for
+                                --from-ref); false: the stash sandwich.  Probed from the argv sequence of the binary
+                                on every run of the check (vlib/c15.py probe_flow) *)
 }.
 
 (* handle_git_automation *)
 Definition handle_git_automation (s : settings) (g : git) : bool * git * trace :=
   if use_git s then
-    if auto_commit s then git_auto_commit (fixed_P20 s) (to_branch s) g
+    if auto_commit s then
+      (if fixed_P24 s then git_auto_commit_only (to_branch s) g
+       else git_auto_commit (fixed_P20 s) (to_branch s) g)
     else if auto_stage s then git_auto_stage g
     else (true, g, [])
   else (true, g, []).
@@ -544,7 +601,7 @@ Fixpoint run_calls (s : settings) (cs : list (delta * bool)) (k : nat) (g : git)
 Definition dispatch (s : settings) (c : cmd) (g : git) : status * git * trace :=
   let '(ok0, g0, t0) :=
     match from_ref s with
-    | Some r => git_checkout_ref (fixed_P20 s) r g
+    | Some r => if fixed_P24 s then git_checkout_ref_plain r g else git_checkout_ref (fixed_P20 s) r g
     | None => (true, g, [])
     end in
   if negb ok0 then (SFromRefFailed, g0, t0)
@@ -579,3 +636,6 @@ Definition known_at (g : git) (ts : list path) : bool :=
   existsb (fun p => staged_b g p && (negb (oblob_eqb (tget (g_index g) p) (tget (g_wt g) p)) || mem p ts))
           (tkeys (head_tree g) ++ tkeys (g_index g)).
 Definition Known_staged_and_unstaged_same_path (c : cmd) (g : git) : bool := known_at g (touched c).
+(* the class follows the switch: with the repair of P24 it is empty *)
+Definition Known_class (s : settings) (c : cmd) (g : git) : bool :=
+  negb (fixed_P24 s) && Known_staged_and_unstaged_same_path c g.
